@@ -20,3 +20,159 @@ CHUNK_C20 = 20
 
 # class predicates of the open known findings (maintained by hand, see pyvc/findings.py) override the placeholders
 from pyvc.findings import *  # noqa: F401,F403,E402
+
+
+# ---- additional case family for C06 (maintainer): line-separator-like characters that str.splitlines() honours but
+# the SQL lexer / the serializer's own line splitting do not, placed inside quote-free opaque regions
+_ODD_SEPS = ['\x0b', '\x0c', '\x1c', '\x1d', '\x1e', '\x85', ' ', ' ']
+_base_cases_C06 = cases_C06  # noqa: F821
+
+
+def cases_C06(tier, seed):  # noqa: F811
+    for ch in _ODD_SEPS:
+        for tmpl in ('select 1 -- c%sx\nfrom t', 'select 1 /* a%sb */ from t', 'select `na%sme` from t',
+                     'select $$d%se$$ from t', 'select [br%sx] from t', 'select a%sfrom t'):
+            text = tmpl % ch
+            for opts in ((), (('reindent', True),), (('strip_whitespace', True),), (('use_space_around_operators', True),)):
+                yield (text, opts)
+    yield from _base_cases_C06(tier, seed)
+
+
+# ---- additional case families (maintainer), added after independently seeded changes were missed by the first domains.
+# They are families, not single inputs: each varies the surrounding construct.
+
+from pyvc import oracles_c as _oc  # noqa: E402
+from pyvc import oracles_a as _oa  # noqa: E402
+
+# C12: quoted names whose content itself begins / ends with a doubled (escaped) quote
+_oc._C12_NAMES += [('""hi""', ('"',)), ('say ""hi""', ('"',)), ('""x', ('"',)), ('``tbl``', ('`',)), ('t``', ('`',))]
+
+_base_oracle_C12, _base_cases_C12 = oracle_C12, cases_C12  # noqa: F821
+
+
+def cases_C12(tier, seed):  # noqa: F811
+    # whitespace before / after the dot of a qualified name (aliased forms; the un-aliased `a .b` is a known oddity of
+    # the alias heuristic and outside the property's "written as name or qualifier.name")
+    for q, qq in (('s', ''), ('db', '"'), ('sch', '`')):
+        for n, nq in (('col', ''), ('tbl', '"'), ('x1', '`')):
+            for dot in (' .', '\n.', '\t .', ' . ', '. '):
+                for alias in (' c', ' AS x', '\nas "Al"'):
+                    for tmpl in ('select %s from t', 'select a, %s, b from t', 'select * from %s', 'select * from o join %s on 1 = 1'):
+                        ref = qq + q + qq + dot + nq + n + nq + alias
+                        yield ('wsdot', tmpl % ref, qq + q + qq + dot + nq + n + nq, q, n,
+                               alias.split()[-1].strip('"'))
+    yield from _base_cases_C12(tier, seed)
+
+
+def oracle_C12(case):  # noqa: F811
+    if case and case[0] == 'wsdot':
+        _k, text, ref, qual, name, alias = case
+        try:
+            import sqlparse
+            from sqlparse import sql as S
+            want = ''.join(ref.split())
+            hits = []
+
+            def walk(t):
+                for c in t.tokens:
+                    if isinstance(c, S.Identifier) and ''.join(str(c).split()).startswith(want):
+                        hits.append(c)
+                    if c.is_group:
+                        walk(c)
+            for st in sqlparse.parse(text):
+                walk(st)
+            if not hits:
+                return {'what': 'no-identifier', 'input': text, 'observed': None, 'expected': ref}
+            n = hits[0]
+            obs = {'get_real_name': n.get_real_name(), 'get_parent_name': n.get_parent_name(), 'get_alias': n.get_alias(),
+                   'get_name': n.get_name(), 'has_alias': n.has_alias()}
+            exp = {'get_real_name': name, 'get_parent_name': qual, 'get_alias': alias, 'get_name': alias, 'has_alias': True}
+            bad = [k for k in exp if obs[k] != exp[k]]
+            if bad:
+                return {'what': 'accessor:' + bad[0], 'input': text, 'observed': {k: obs[k] for k in bad},
+                        'expected': {k: exp[k] for k in bad}}
+            return None
+        except Exception as e:
+            return {'what': 'exception:' + type(e).__name__, 'input': text, 'observed': str(e)[:100], 'expected': 'accessors'}
+    return _base_oracle_C12(case)
+
+
+# C09: openers two or more group levels below the level being scanned
+_base_cases_C09 = cases_C09  # noqa: F821
+
+
+def cases_C09(tier, seed):  # noqa: F811
+    inner = ['case when a then b end', 'case when a then 1 else 2 end', 'if a then b END IF', 'begin x end',
+             'for x in y loop z end loop', '[ 1 ]', 'case when a then case when b then c end end']
+    wraps = ['( ( %s ) )', 'f ( ( %s ) , 0 )', '( [ ( %s ) ] )', 'coalesce ( ( %s ) , 0 )', '( ( ( %s ) ) )',
+             'case when ( ( %s ) ) then 1 end', 'begin ( ( %s ) ) end', '( a , ( b , ( %s ) ) )', 'x [ ( ( %s ) ) ]']
+    for w in wraps:
+        for i in inner:
+            yield w % i
+            yield 'select ' + (w % i) + ' from t'
+    yield from _base_cases_C09(tier, seed)
+
+
+# C04 / C05: a statement that ends at a non-zero nesting level (unmatched parenthesis before ; or GO) followed by others
+_base_cases_C04 = cases_C04  # noqa: F821
+
+
+def cases_C04(tier, seed):  # noqa: F811
+    firsts = ['select (1', 'select 1)', 'select f((a)', 'insert into t values (1, (2', 'select a] ', 'select ((1)']
+    terms = ['\nGO\n', ' GO\n', ';\n', '; ']
+    rests = ['select 2;\nselect 3;', 'select 2; select 3', 'insert into t3 (a, b) values (1, 2);\nselect 4;',
+             'select (2);\nselect (3);']
+    for f in firsts:
+        for t in terms:
+            for r in rests:
+                yield f + t + r
+    yield from _base_cases_C04(tier, seed)
+
+
+# C13: two WHERE clauses on one level; constructs behind a long run of grouped siblings
+_base_cases_C13, _base_oracle_C13 = cases_C13, oracle_C13  # noqa: F821
+
+
+def cases_C13(tier, seed):  # noqa: F811
+    for op in ('union', 'union all', 'except'):
+        for w1 in ('x = 1', 'x = 1 and y = 2', 'x = 1 and y = 2 and z between 3 and 4 or w like \'a\''):
+            for w2 in ('z = 3', 'q < 2 and r > 1'):
+                for wrap in ('%s', 'select * from ( %s ) s', 'insert into t %s'):
+                    yield ('two-where', wrap % ('select a from t where %s %s select b from u where %s' % (w1, op, w2)),
+                           ('where ' + w1, 'where ' + w2))
+    for n in (20, 99, 120):
+        cols = ', '.join('c%d' % i for i in range(n))
+        yield ('long', 'select %s from t where a = 1 and b < 2' % cols, ('Comparison', 2))
+        yield ('long', 'select %s, f(p, q) from t where d > DATE \'2020-01-01\'' % cols, ('Comparison', 1))
+    yield from _base_cases_C13(tier, seed)
+
+
+def oracle_C13(case):  # noqa: F811
+    if case and case[0] in ('two-where', 'long'):
+        try:
+            import sqlparse
+            from sqlparse import sql as S
+            text = case[1]
+            nodes = []
+
+            def walk(t):
+                for c in t.tokens:
+                    nodes.append(c)
+                    if c.is_group:
+                        walk(c)
+            for st in sqlparse.parse(text):
+                walk(st)
+            if case[0] == 'two-where':
+                got = [' '.join(str(n).split()) for n in nodes if isinstance(n, S.Where)]
+                want = [' '.join(w.split()) for w in case[2]]
+                if got != want:
+                    return {'what': 'where-extent', 'input': text, 'observed': got, 'expected': want}
+                return None
+            cls, cnt = case[2]
+            got = sum(1 for n in nodes if type(n).__name__ == cls)
+            if got != cnt:
+                return {'what': 'comparison-missing', 'input': text[:60] + '...' + text[-50:], 'observed': got, 'expected': cnt}
+            return None
+        except Exception as e:
+            return {'what': 'exception:' + type(e).__name__, 'input': case[1][:100], 'observed': str(e)[:100], 'expected': 'tree'}
+    return _base_oracle_C13(case)
